@@ -288,7 +288,8 @@ def _anonymize_value(raw_val, lookup, reserved_words, salt):
 
     if item_format == _sensitive_item_formats.sha512:
         # Hash anon_val w/standard rounds=5000 to omit rounds parameter from hash output
-        anon_val = sha512_crypt.using(rounds=5000).hash(anon_val)
+        # Static salt, as for the other formats, so the output is reproducible
+        anon_val = sha512_crypt.using(rounds=5000, salt="0" * 16).hash(anon_val)
 
     if item_format == _sensitive_item_formats.juniper_type9:
         anon_val = juniper_secrets.juniper_nonrandom_encrypt(anon_val, salt)
